@@ -356,7 +356,35 @@ func runParse(c *Case, tr *Trace) {
 	if c.Fmt == "json" {
 		tr.NumTab = numTabFor(doc)
 	}
-	parseDoc(rec, c.Entry)
+	// sub.prelude: earlier, independent uses of the package-level one-shot functions (documents that are refused in
+	// the middle of an item, as a rule) - they must leave nothing behind for the parse that is judged
+	if pre, ok := c.Sub["prelude"].([]interface{}); ok {
+		for rep := 0; rep < 3; rep++ {
+			for _, d := range pre {
+				b, _ := json.Marshal(d)
+				var ints []int
+				json.Unmarshal(b, &ints)
+				pd := intsToBytes(ints)
+				func() {
+					defer func() { recover() }()
+					switch c.Entry {
+					case "parsestr":
+						api.parseString(string(pd), &CountVisitor{})
+					case "reader":
+						api.parseReader(&chunkReader{chunks: [][]byte{exact(pd)}}, &CountVisitor{})
+					default:
+						api.parse(exact(pd), &CountVisitor{})
+					}
+				}()
+			}
+		}
+	}
+	var v structform.Visitor = rec
+	if on, _ := c.Sub["plainvis"].(bool); on {
+		// the consumer implements structform.Visitor only: texts reach it through the library's adapter
+		v = struct{ structform.Visitor }{rec}
+	}
+	parseDoc(v, c.Entry)
 	tr.StrMut = rec.Mutated()
 	tr.EvCap = rec.Dropped > 0
 	if c.Measure {
